@@ -2932,8 +2932,10 @@ class KmipEngine(object):
         supported_versions = list()
 
         if len(payload.protocol_versions) > 0:
-            for version in payload.protocol_versions:
-                if version in self._protocol_versions:
+            # Answer in the server's order of preference (newest first),
+            # not in the order used by the client.
+            for version in self._protocol_versions:
+                if version in payload.protocol_versions:
                     supported_versions.append(version)
         else:
             supported_versions = self._protocol_versions
